@@ -1,4 +1,5 @@
 """C17: user scoring receives exactly the steps that happened (per-slot gather / tally kernels)."""
+import re
 from vkit.extract import Rule
 from vkit.runner import Unit
 from units.c01 import Q_RULES
@@ -453,4 +454,85 @@ UNITS += [
          must_have=[r"SDE_call.postcondition", r"celer_ensure"], checks=CHECKS,
          assumptions=["atomic_add treated as sequential read-modify-write", "table size bounded (<= 64 bins in the harness)", "wrap-around of a 64-bit counter not considered"],
          note="StepDiagnosticExecutor: a killed track adds 1 to count[particle * num_bins + min(steps, num_bins-1)], nothing else changes; live tracks change nothing; in-body CELER_ENSURE holds"),
+]
+
+
+# ---------------------------------------------------------------------------
+# accumulate_over_streams (host): the reported tally is the sum over ALL allocated streams
+# ---------------------------------------------------------------------------
+SST = "src/corecel/data/StreamStore.hh"
+AOS_MODEL = """
+#define INVALID_ID ((size_type)-1)
+#define NSTREAM 4
+#define NITEM 8
+typedef size_type T;                                   /* instantiated for size_type tallies (diagnostic counts); sums are exact modulo 2^64 */
+typedef struct { T const* ptr; size_type size; } SpanT;
+typedef struct { T* ptr; size_type size_; } VecT;      /* std::vector<T>* result */
+typedef struct { T counts[NITEM]; } StreamState;
+StreamState g_states[NSTREAM]; bool g_alloc[NSTREAM]; size_type g_nstreams, g_nitems;     /* the store: per-stream states, lazily allocated (any subset) */
+size_type g_w; T g_old;                                /* ghost: witness item and its value before */
+/* store.state<MemSpace::host>(s): pointer to the stream's state, or null if that stream was never used (deterministic accessor) */
+static StreamState const* STORE_host_state(size_type s) { __CPROVER_assert(s < g_nstreams, "celer_expect: stream id < num_streams"); return g_alloc[s] ? &g_states[s] : 0; }
+static SpanT FUNC_all_items(StreamState const* st) { SpanT d = {st->counts, g_nitems}; return d; }
+/* the specified partial sums: contributions of the allocated streams below s, in stream order */
+#define D(s) (g_alloc[s] ? g_states[s].counts[g_w] : (T)0)
+#define PSUM(s) ((s) == 0 ? g_old : (s) == 1 ? g_old + D(0) : (s) == 2 ? g_old + D(0) + D(1) : (s) == 3 ? g_old + D(0) + D(1) + D(2) : g_old + D(0) + D(1) + D(2) + D(3))
+"""
+AOS_RULES = [
+    Rule(r"std::vector<T> temp_host;", "", (0, 1), note="device staging buffer (unused on the host path)"),
+    Rule(r"for \(StreamId s : range\(StreamId\{store\.num_streams\(\)\}\)\)", "for (size_type s = 0; s < g_nstreams; ++s)", "+", note="range-for over stream ids -> counting loop"),
+    Rule(r"if \(auto\* state = store\.template state<MemSpace::host>\(s\)\)", "StreamState const* state = STORE_host_state(s);\n        if (state)", (0, 1), note="if-with-declaration on the lazily allocated state"),
+    Rule(r"auto\* state = store\.template state<MemSpace::host>\(s\);", "StreamState const* state = STORE_host_state(s);", (0, 1), note="lazily allocated state"),
+    Rule(r"auto data = func\(\*state\)\[AllItems<T>\{\}\];", "SpanT data = FUNC_all_items(state);", "+", note="accessor functor + AllItems -> span over the stream's tallies"),
+    Rule(r"data\.size\(\)", "data.size", "+", note="Span size"),
+    Rule(r"result->size\(\)", "result->size_", "+", note="vector size"),
+    Rule(r"for \(auto i : range\(data\.size\)\)", "for (size_type i = 0; i < data.size; ++i)", "+", note="range-for -> counting loop"),
+    Rule(r"\(\*result\)\[i\]", "result->ptr[i]", "+", note="vector element"),
+    Rule(r"data\[i\]", "data.ptr[i]", "+", note="Span element"),
+    LoopContracts([
+        "    __CPROVER_assigns(s, __CPROVER_object_whole(result->ptr))\n"
+        "    __CPROVER_loop_invariant(s <= g_nstreams && result->ptr[g_w] == PSUM(s))\n"
+        "    __CPROVER_decreases(g_nstreams - s)\n",
+        "    __CPROVER_assigns(i, __CPROVER_object_whole(result->ptr))\n"
+        "    __CPROVER_loop_invariant(i <= data.size && result->ptr[g_w] == PSUM(s) + (g_w < i ? data.ptr[g_w] : (T)0))\n"
+        "    __CPROVER_decreases(data.size - i)\n"]),
+]
+
+
+def build_accumulate_streams(ctx):
+    from vkit.extract import ExtractionDrift
+    pc = ctx.func(SST, r"^void accumulate_over_streams\(S&& store, F&& func, std::vector<T>\* result\)", [], generic=False, name="accumulate_over_streams")
+    # the host loop = the text up to the second loop over the streams (the device loop, which goes through copy_to_host, is not part of this unit)
+    heads = [m.start() for m in re.finditer(r"for \(StreamId s : range\(", pc.body)]
+    if len(heads) != 2 or "MemSpace::device" in pc.body[: heads[1]] or "MemSpace::device" not in pc.body[heads[1]:]:
+        raise ExtractionDrift("accumulate_over_streams no longer has the host loop followed by the device loop")
+    text = pc.body[: heads[1]]
+    rep = []
+    for r in AOS_RULES:
+        text = r.apply(text, rep, "accumulate_over_streams [host loop]")
+    ctx.report.extend(rep)
+    return (HDR + AOS_MODEL + """
+void AOS_host(VecT* result)
+__CPROVER_requires(result != 0 && g_nstreams <= NSTREAM && g_nitems <= NITEM && result->size_ == g_nitems && __CPROVER_rw_ok(result->ptr, NITEM * sizeof(T)) && g_w < g_nitems && g_old == result->ptr[g_w])
+__CPROVER_assigns(__CPROVER_object_whole(result->ptr))
+/* every item of the result grows by the sum of that item over ALL streams that have a state -- whichever streams were used, in whatever pattern */
+__CPROVER_ensures(result->ptr[g_w] == PSUM(g_nstreams))
+{
+""" + text + """
+}
+void h_aos(void)
+{
+    T buf[NITEM]; size_type n_; VecT r = {buf, n_}; size_type w; g_w = w; if (w < NITEM) g_old = buf[w];
+    for (unsigned k = 0; k < NSTREAM; ++k) { unsigned b; g_alloc[k] = (b != 0); }
+    AOS_host(&r);
+    VERIF_CANARY();
+}
+""")
+
+
+UNITS += [
+    Unit("c17_accumulate_over_streams", build_accumulate_streams, "h_aos", enforce="AOS_host", loop_contracts=True, timeout=600, object_bits=10, backend=["sat", "kissat", "cvc5"], unwind=6,
+         must_have=[r"AOS_host.postcondition", r"loop_invariant_step", r"celer_expect"], checks=CHECKS,
+         assumptions=["host path only (the device loop copies through a staging buffer; not in this build)", "<= 4 streams and <= 8 items in the harness (the loops themselves are closed by loop contracts)", "instantiated for integer tallies"],
+         note="accumulate_over_streams (host part; used by SimpleCalo, ActionDiagnostic, StepDiagnostic): result[i] += sum over ALL allocated streams of that stream's tally i, for any allocation pattern of the lazily created per-stream states"),
 ]
